@@ -237,6 +237,8 @@ class TemplateEval(object):
             self.eval(v)
             return
         if isinstance(st, ast.Assign):
+            if len(st.targets) == 1 and isinstance(st.targets[0], ast.Name) and self._union_update(st, st.targets[0].id, st.value):
+                return
             val = self.eval(st.value)
             for t in st.targets:
                 self.bind(t, val)
@@ -246,6 +248,10 @@ class TemplateEval(object):
                 self.bind(st.target, self.eval(st.value))
             return
         if isinstance(st, ast.AugAssign):
+            if isinstance(st.target, ast.Name) and isinstance(st.op, ast.BitOr) and isinstance(self.env.get(st.target.id), Ex) and \
+                    self.env[st.target.id].text == st.target.id:
+                self._update_event(st, st.target.id, st.value, 'update')      # s |= t: in place, like s.update(t)
+                return
             if isinstance(st.target, ast.Name) and isinstance(st.op, ast.Add):
                 cur = self.env.get(st.target.id)
                 add = self.eval(st.value)
@@ -394,14 +400,21 @@ class TemplateEval(object):
 
     def _if(self, st):
         t = st.test
-        # ``if p is None: p = <default>``
-        if not st.orelse and len(st.body) == 1 and isinstance(st.body[0], ast.Assign) and len(st.body[0].targets) == 1 and \
-                isinstance(st.body[0].targets[0], ast.Name) and isinstance(t, ast.Compare) and len(t.ops) == 1 and \
-                isinstance(t.ops[0], (ast.Is, ast.Eq)) and isinstance(t.left, ast.Name) and t.left.id == st.body[0].targets[0].id and \
-                isinstance(t.comparators[0], ast.Constant) and t.comparators[0].value is None:
+        # ``if p is None: p = <default>``  (also ``p = <default> if p is None else p``, which the loader spells as if/else)
+        def one_assign(block):
+            if len(block) == 1 and isinstance(block[0], ast.Assign) and len(block[0].targets) == 1 and isinstance(block[0].targets[0], ast.Name):
+                return block[0].targets[0].id, block[0].value
+            return None, None
+        if isinstance(t, ast.Compare) and len(t.ops) == 1 and isinstance(t.left, ast.Name) and isinstance(t.comparators[0], ast.Constant) \
+                and t.comparators[0].value is None and isinstance(t.ops[0], (ast.Is, ast.Eq, ast.IsNot, ast.NotEq)):
             name = t.left.id
-            self.inits[name] = (st, st.body[0].value)
-            return
+            none_branch, other = (st.body, st.orelse) if isinstance(t.ops[0], (ast.Is, ast.Eq)) else (st.orelse, st.body)
+            n1, v1 = one_assign(none_branch)
+            n2, v2 = one_assign(other) if other else (name, ast.Name(id=name, ctx=ast.Load()))
+            if n1 == name and n2 == name and isinstance(v2, ast.Name) and v2.id == name and isinstance(self.env.get(name), Ex) and \
+                    self.env[name].text == name:
+                self.inits[name] = (st, v1)
+                return
         if self._terminates(st.body) and not self._contains_stop(st):
             # guard clause: the rest of the function is the other path
             sub = TemplateEval(self.repo, self.fi, env=dict(self.env), parent=self)
@@ -439,6 +452,29 @@ class TemplateEval(object):
             return
         raise AnalysisError('%s: conditional construction in a code generator (if %s) is outside the modelled subset'
                             % (self.fi.qualname, norm(t)[:60]))
+
+    def _update_event(self, st, name, arg, kind):
+        a = arg
+        while isinstance(a, ast.Call) and isinstance(a.func, ast.Name) and a.func.id in ('set', 'frozenset', 'list', 'tuple') and len(a.args) == 1:
+            a = a.args[0]
+        self.events.append({'kind': kind, 'target': name, 'arg': norm(self.resolve(a)), 'node': st, 'stmt': st, 'owner': self.fi.qualname,
+                            'rebinds': isinstance(st, ast.Assign)})
+
+    def _union_update(self, st, name, value):
+        """``s = s | t`` / ``s = s.union(t)`` for a set we only know by name: the set gains t (a new object is bound)."""
+        cur = self.env.get(name)
+        if not (isinstance(cur, Ex) and cur.text == name):
+            return False
+        if isinstance(value, ast.BinOp) and isinstance(value.op, ast.BitOr):
+            for a, b in ((value.left, value.right), (value.right, value.left)):
+                if isinstance(a, ast.Name) and a.id == name:
+                    self._update_event(st, name, b, 'update')
+                    return True
+        if isinstance(value, ast.Call) and isinstance(value.func, ast.Attribute) and value.func.attr == 'union' and \
+                isinstance(value.func.value, ast.Name) and value.func.value.id == name and len(value.args) == 1 and not value.keywords:
+            self._update_event(st, name, value.args[0], 'update')
+            return True
+        return False
 
     def _method_stmt(self, st, call):
         """``name.method(...)`` as a statement; True when handled."""
@@ -660,7 +696,19 @@ class TemplateEval(object):
                 elif isinstance(r, tuple):
                     ops = [self.to_parts(x) for x in r]
                 elif isinstance(r, SDict):
-                    return Tmpl([Sym('expr', expr=self.resolve(e))])
+                    if r.comp is not None:
+                        return Tmpl([Sym('expr', expr=self.resolve(e))])
+                    out = []
+                    for p in re.split(r'(%%|%\([A-Za-z_][A-Za-z_0-9]*\)[srd])', fmt):
+                        if p == '%%':
+                            out.append('%')
+                        elif p.startswith('%(') and p[2:-2] in r.items:
+                            out.extend(self.to_parts(r.items[p[2:-2]]))
+                        elif '%' in p:
+                            return Tmpl([Sym('expr', expr=self.resolve(e))])
+                        elif p:
+                            out.append(p)
+                    return Tmpl(out)
                 else:
                     ops = [self.to_parts(r)]
                 pieces = re.split(r'(%%|%[srd])', fmt)
